@@ -65,46 +65,46 @@ theorem liftedEq_iff (g : G) (s : List F) (Ps : List G) :
   | cons x xs ih => cases Ps <;> simp [liftedEq, ih]
 
 theorem pick_map {α β : Type} (f : α → β) (labels : List Nat) (id : Nat) (xs : List α) :
-    pick labels id (xs.map f) = (pick labels id xs).map f := by
+    Vss.pick labels id (xs.map f) = (Vss.pick labels id xs).map f := by
   induction labels generalizing xs with
-  | nil => simp [pick]
+  | nil => simp [Vss.pick]
   | cons l ls ih =>
     cases xs with
-    | nil => simp [pick]
+    | nil => simp [Vss.pick]
     | cons x xs =>
       have := ih xs
-      simp only [pick] at this ⊢
+      simp only [Vss.pick] at this ⊢
       by_cases h : l = id <;> simp [List.filter_cons, h, this]
 
 theorem pick_length {α β : Type} (labels : List Nat) (id : Nat) (xs : List α) (ys : List β)
-    (h : xs.length = ys.length) : (pick labels id xs).length = (pick labels id ys).length := by
+    (h : xs.length = ys.length) : (Vss.pick labels id xs).length = (Vss.pick labels id ys).length := by
   induction labels generalizing xs ys with
-  | nil => simp [pick]
+  | nil => simp [Vss.pick]
   | cons l ls ih =>
     cases xs with
     | nil => cases ys with
-      | nil => simp [pick]
+      | nil => simp [Vss.pick]
       | cons y ys => simp at h
     | cons x xs => cases ys with
       | nil => simp at h
       | cons y ys =>
         have := ih xs ys (by simpa using h)
-        simp only [pick] at this ⊢
+        simp only [Vss.pick] at this ⊢
         by_cases h' : l = id <;> simp [List.filter_cons, h', this]
 
 theorem pick_zipWith {α β γ : Type} (f : α → β → γ) (labels : List Nat) (id : Nat)
     (xs : List α) (ys : List β) :
-    pick labels id (List.zipWith f xs ys) = List.zipWith f (pick labels id xs) (pick labels id ys) := by
+    Vss.pick labels id (List.zipWith f xs ys) = List.zipWith f (Vss.pick labels id xs) (Vss.pick labels id ys) := by
   induction labels generalizing xs ys with
-  | nil => simp [pick]
+  | nil => simp [Vss.pick]
   | cons l ls ih =>
     cases xs with
-    | nil => simp [pick]
+    | nil => simp [Vss.pick]
     | cons x xs => cases ys with
-      | nil => simp [pick]
+      | nil => simp [Vss.pick]
       | cons y ys =>
         have := ih xs ys
-        simp only [pick] at this ⊢
+        simp only [Vss.pick] at this ⊢
         by_cases h' : l = id <;> simp [List.filter_cons, h', this]
 
 theorem smul_gen_injective (g : G) (hg : ∀ a : F, a • g = 0 → a = 0) :
